@@ -184,11 +184,14 @@ type Site struct {
 	Off, Len int
 	Kind     string
 	Val      uint64
-	Rem      int   // input bytes left in the innermost enclosing container after this field
-	Frames   []int // indexes (into Walked.Sites) of the enclosing size fields, outermost first
-	LEB      bool  // the field is an (unsigned or signed) LEB128
-	Fn       int   // code body number for sites inside a body, else -1
-	Sec      int   // index of the section the site belongs to
+	Rem      int    // input bytes left in the innermost enclosing container after this field
+	Frames   []int  // indexes (into Walked.Sites) of the enclosing size fields, outermost first
+	LEB      bool   // the field is an (unsigned or signed) LEB128
+	Fn       int    // code body number for sites inside a body, else -1
+	Sec      int    // index of the section the site belongs to
+	Op       byte   // sites inside an instruction: its opcode (prefix byte for prefixed ones) ...
+	Sub      uint32 // ... and its sub-opcode
+	InInstr  bool
 }
 
 type ImportInfo struct {
@@ -232,14 +235,17 @@ type Walked struct {
 }
 
 type walker struct {
-	sec    int
-	b      []byte
-	w      *Walked
-	pos    int
-	end    int // end of the innermost container
-	frames []int
-	fn     int
-	bad    bool
+	inInstr bool
+	curOp   byte
+	curSub  uint32
+	sec     int
+	b       []byte
+	w       *Walked
+	pos     int
+	end     int // end of the innermost container
+	frames  []int
+	fn      int
+	bad     bool
 }
 
 func (k *walker) site(off, n int, kind string, val uint64, leb bool) int {
@@ -248,7 +254,7 @@ func (k *walker) site(off, n int, kind string, val uint64, leb bool) int {
 		rem = 0
 	}
 	k.w.Sites = append(k.w.Sites, Site{Off: off, Len: n, Kind: kind, Val: val, Rem: rem,
-		Frames: append([]int(nil), k.frames...), LEB: leb, Fn: k.fn, Sec: k.sec})
+		Frames: append([]int(nil), k.frames...), LEB: leb, Fn: k.fn, Sec: k.sec, Op: k.curOp, Sub: k.curSub, InInstr: k.inInstr})
 	return len(k.w.Sites) - 1
 }
 
@@ -357,10 +363,13 @@ func (k *walker) constExpr() {
 
 // instr walks one instruction, records its sites, returns the opcode.
 func (k *walker) instr() byte {
+	k.inInstr = false
 	op := k.byteSite(kOpcode)
 	if k.bad {
 		return op
 	}
+	k.inInstr, k.curOp, k.curSub = true, op, 0
+	defer func() { k.inInstr = false }()
 	switch {
 	case op == 0x02 || op == 0x03 || op == 0x04:
 		k.sleb(kBlockType, 5)
@@ -411,6 +420,10 @@ func (k *walker) instr() byte {
 		k.byteSite(kRefType)
 	case op == 0xfc:
 		sub := k.u32(kSubOpcode)
+		if !k.bad {
+			k.curSub = sub
+			k.w.Sites[len(k.w.Sites)-1].Sub = sub
+		}
 		switch sub {
 		case 8:
 			k.u32(kDataIndex)
@@ -435,6 +448,10 @@ func (k *walker) instr() byte {
 		}
 	case op == 0xfd:
 		sub := k.u32(kSubOpcode)
+		if !k.bad {
+			k.curSub = sub
+			k.w.Sites[len(k.w.Sites)-1].Sub = sub
+		}
 		switch {
 		case sub <= 11 || sub == 92 || sub == 93:
 			k.u32(kAlign)
@@ -453,6 +470,10 @@ func (k *walker) instr() byte {
 		}
 	case op == 0xfe:
 		sub := k.u32(kSubOpcode)
+		if !k.bad {
+			k.curSub = sub
+			k.w.Sites[len(k.w.Sites)-1].Sub = sub
+		}
 		switch {
 		case sub == 3:
 			k.byteSite(kMemIndex)
